@@ -205,7 +205,7 @@ func libTriple(seedIdx int, msg []byte, vs variantSpec) triple {
 	k := NewKeyFromSeed(seedOf(seedIdx))
 	sig, err := k.Sign(nil, msg, vs.opts(false))
 	if err != nil {
-		panic(err)
+		panic(rt.Refused{What: fmt.Sprintf("Sign under variant %v with a %d-byte context", vs.v, len(vs.ctx)), Err: err})
 	}
 	return triple{append([]byte{}, k[32:]...), msg, sig}
 }
